@@ -370,6 +370,12 @@ fn needs_globbing(line: &str) -> bool {
     re.is_match(line)
 }
 
+/// Does the text contain a character that the passes after expansion would
+/// read as an operator (pipe, background marker, redirection)?
+fn has_operator_char(text: &str) -> bool {
+    text.contains('|') || text.contains('&') || text.contains('<') || text.contains('>')
+}
+
 pub fn expand_glob(tokens: &mut types::Tokens) {
     let mut idx: usize = 0;
     let mut buff = Vec::new();
@@ -431,7 +437,8 @@ pub fn expand_glob(tokens: &mut types::Tokens) {
     for (i, result) in buff.iter().rev() {
         tokens.remove(*i);
         for (j, token) in result.iter().enumerate() {
-            let sep = if token.contains(' ') { "\"" } else { "" };
+            // a file name is data, whatever characters it contains
+            let sep = if token.contains(' ') || has_operator_char(token) { "\"" } else { "" };
             tokens.insert(*i + j, (sep.to_string(), token.clone()));
         }
     }
@@ -816,6 +823,11 @@ pub fn expand_env(sh: &Shell, tokens: &mut types::Tokens) {
     }
 
     for (i, text) in buff.iter().rev() {
+        // a value is data: operator characters it brings into an unquoted
+        // word must not be read as syntax by the later passes
+        if tokens[*i].0.is_empty() && !has_operator_char(&tokens[*i].1) && has_operator_char(text) {
+            tokens[*i].0 = String::from("\"");
+        }
         tokens[*i].1 = text.to_string();
     }
 }
@@ -828,6 +840,8 @@ fn should_do_dollar_command_extension(line: &str) -> bool {
 fn do_command_substitution_for_dollar(sh: &mut Shell, tokens: &mut types::Tokens) {
     let mut idx: usize = 0;
     let mut buff: HashMap<usize, String> = HashMap::new();
+    // unquoted words into which an output brought operator characters
+    let mut data_words: Vec<usize> = Vec::new();
 
     for (sep, token) in tokens.iter() {
         if sep == "'" || sep == "\\" || !should_do_dollar_command_extension(token) {
@@ -836,6 +850,7 @@ fn do_command_substitution_for_dollar(sh: &mut Shell, tokens: &mut types::Tokens
         }
 
         let mut line = token.to_string();
+        let mut got_operator = false;
         loop {
             if !should_do_dollar_command_extension(&line) {
                 break;
@@ -873,6 +888,9 @@ fn do_command_substitution_for_dollar(sh: &mut Shell, tokens: &mut types::Tokens
             };
 
             let output_txt = cmd_result.stdout.trim();
+            if has_operator_char(output_txt) {
+                got_operator = true;
+            }
 
             let ptn = r"(?P<head>[^\$]*)\$\(.+\)(?P<tail>.*)";
             let re;
@@ -891,6 +909,9 @@ fn do_command_substitution_for_dollar(sh: &mut Shell, tokens: &mut types::Tokens
             line = result.to_string();
         }
 
+        if got_operator && sep.is_empty() {
+            data_words.push(idx);
+        }
         buff.insert(idx, line.clone());
         idx += 1;
     }
@@ -898,11 +919,17 @@ fn do_command_substitution_for_dollar(sh: &mut Shell, tokens: &mut types::Tokens
     for (i, text) in buff.iter() {
         tokens[*i].1 = text.to_string();
     }
+    // an output is data: its operator characters are not syntax
+    for i in data_words.iter() {
+        tokens[*i].0 = String::from("\"");
+    }
 }
 
 fn do_command_substitution_for_dot(sh: &mut Shell, tokens: &mut types::Tokens) {
     let mut idx: usize = 0;
     let mut buff: HashMap<usize, String> = HashMap::new();
+    // unquoted words into which an output brought operator characters
+    let mut data_words: Vec<usize> = Vec::new();
     for (sep, token) in tokens.iter() {
         let new_token: String;
         if sep == "`" {
@@ -976,6 +1003,9 @@ fn do_command_substitution_for_dot(sh: &mut Shell, tokens: &mut types::Tokens) {
                     };
 
                     _output = cr.stdout.trim().to_string();
+                    if has_operator_char(&_output) && sep.is_empty() && !data_words.contains(&idx) {
+                        data_words.push(idx);
+                    }
                 }
                 _item = format!("{}{}{}", _item, _head, _output);
                 if _tail.is_empty() {
@@ -995,6 +1025,10 @@ fn do_command_substitution_for_dot(sh: &mut Shell, tokens: &mut types::Tokens) {
 
     for (i, text) in buff.iter() {
         tokens[*i].1 = text.to_string();
+    }
+    // an output is data: its operator characters are not syntax
+    for i in data_words.iter() {
+        tokens[*i].0 = String::from("\"");
     }
 }
 
